@@ -345,6 +345,23 @@ pub fn plan(tier: Tier) -> Plan {
             do_case(&kvs, Front::MapExtendStreamMap, DEFAULT_GEOM, false, st, rep);
         }
     }));
+    // (d5) mixed mid-size family (finite family, not an enumeration)
+    {
+        let total = if thorough { 1260 } else { 168 };
+        for part in 0..16usize {
+            p.units.push(unit("mixed-mid-size-family-(finite-family)", format!("mixed part {}", part), move |st, rep| {
+                for (i, (_, kvs)) in mixed_family(total).into_iter().enumerate() {
+                    if i % 16 != part { continue; }
+                    st.nontrivial += 1;
+                    st.count("mixed_cases", 1);
+                    do_case(&kvs, Front::RawInsert, DEFAULT_GEOM, true, st, rep);
+                    do_case(&kvs, Front::RawInsert, (3, 3), false, st, rep);
+                    do_case(&kvs, Front::MapExtendStreamUnion, DEFAULT_GEOM, false, st, rep);
+                    do_case(&kvs, Front::SetFromIter, DEFAULT_GEOM, false, st, rep);
+                }
+            }));
+        }
+    }
     // (e) size families (thorough): 2-, 3- and 4-byte address deltas
     if thorough {
         for n in [3_000u64, 70_000, 1_200_000] {
